@@ -285,6 +285,26 @@ def run(case, res):
     wf = list(case['writer_faults'])
     wfi = 0
     for name, fn in calls:
+        if name == 'print_trace' and wf and wf[0] % 2 == 1:
+            # the same trace is first printed in other bases and layouts; the print that counts
+            # must equal that of a twin trace printed once
+            sim_t = pyrtl.Simulation(tracer=pyrtl.SimulationTrace('all', block=blk), block=blk)
+            for cyc in tape[:n_ok]:
+                sim_t.step(dict(cyc))
+            t_buf, m_buf = io.StringIO(), io.StringIO()
+            try:
+                for base_, comp_ in ((2, False), (16, True), (8, False)):
+                    tr.print_trace(io.StringIO(), base=base_, compact=comp_)
+                sim_t.tracer.print_trace(t_buf)
+                fn(m_buf)
+            except (pyrtl.PyrtlError, pyrtl.PyrtlInternalError):
+                res.probes.hit('call_refused:' + name)
+            else:
+                res.faults.hit('printed_in_other_bases_first')
+                if t_buf.getvalue() != m_buf.getvalue():
+                    return Violation('determinism', 'text_depends_on_earlier_prints',
+                                     {'call': name, 'diff': first_diff(t_buf.getvalue(), m_buf.getvalue())},
+                                     ['call:' + name, 'history:print_print'])
         if name in ('print_vcd', 'print_trace') and wf and wf[0] % 2 == 0:
             # the very first dump of this trace object is the one that fails; the dump after
             # it must equal the dump of a twin trace that never saw a failure
